@@ -1,9 +1,19 @@
 package props
 
-import "verif/internal/drv"
+import (
+	"bufio"
+	"fmt"
+	"os"
+	"path/filepath"
+	"strings"
+
+	"verif/internal/cbuild"
+	"verif/internal/drv"
+	"verif/internal/wd"
+)
 
 func init() {
-	goLib("C17", 16, drv.ChildOpts{
+	c17lib("C17", 16, drv.ChildOpts{
 		// Logical budgets: a Decode/Encode that hangs (RLIMIT_CPU) or allocates
 		// absurdly (RLIMIT_AS) on some input is a verdict attributed to the
 		// marked case. The quick tier lowers the CPU budget to 600 s itself.
@@ -20,10 +30,88 @@ func init() {
 			"distinct = (format, length class, LZMA2 chunk-kind sequence read back from the file by the walker, carry class counted by an independent shadow range encoder) for round trips, (format, mutation kind, outcome class) for robustness",
 		Assumptions: []string{
 			"the xz tool (XZ Utils liblzma) is a correct full LZMA/XZ decoder",
-			"the third decoder leg (generated Wuffs std/lzma, std/xz) is not wired in yet (TODO hook c17wuffsLegHook)",
+			"third decoder leg: a bounded sample of the encodings (about 1000 quick / 24000 thorough) is decoded by the generated Wuffs std/lzma and std/xz decoders (ASan+UBSan build of the working tree's C)",
 			"the shadow range encoder and the walker only classify; the walker's complaints are limited to MUSTs of the .xz specification",
 			"RLIMIT_AS is 4 GiB and RLIMIT_CPU 600 s (quick) / 3000 s (thorough) per shard; the decoder allocates by produced output, not by claimed size",
 		},
 		MinEvals: 20000, MinClasses: 150,
 	})
+}
+
+// c17lib is goLib plus the Wuffs-decoder leg: the vmon child exports a sample
+// of its encodings, which the sanitized wdrive build must decode to the payload.
+func c17lib(id string, shards int, o drv.ChildOpts, sp drv.Spec) {
+	Table[id] = Prop{Run: func(r *drv.Run) drv.Spec {
+		bin, err := r.BuildGo("./cmd/vmon", "vmon", drv.BuildOpts{Tags: "verif"})
+		if err != nil {
+			drv.Fatal("%v", err)
+		}
+		wdir := filepath.Join(r.Scratch, "c17w")
+		os.MkdirAll(wdir, 0o755)
+		o.Env = append(o.Env, "VERIF_C17_WDIR="+wdir)
+		r.RunShards(bin, id, shards, []string{id}, o)
+		if r.Replay != "" {
+			return sp
+		}
+		e := newCenv(r, cbuild.VAsan)
+		type exp struct {
+			kind, hash, phase string
+			plen, elen, idx   int64
+		}
+		var jobs []*wd.Job
+		files, _ := filepath.Glob(filepath.Join(wdir, "manifest.*"))
+		for _, mf := range files {
+			f, err := os.Open(mf)
+			if err != nil {
+				continue
+			}
+			sc := bufio.NewScanner(f)
+			for sc.Scan() {
+				var name string
+				var x exp
+				if n, _ := fmt.Sscanf(sc.Text(), "%s %s %d %s %d %s %d", &name, &x.kind, &x.plen, &x.hash, &x.elen, &x.phase, &x.idx); n != 7 {
+					continue
+				}
+				line := fmt.Sprintf("job=decode kind=%s in=%s dtotal=%d wbfixed=8389000 cpu=60", x.kind, name, x.plen+4096)
+				if len(jobs)%3 == 1 {
+					line += fmt.Sprintf(" splits=%d,1,1,7", x.elen/2)
+				}
+				jobs = append(jobs, &wd.Job{Text: line + "\n", Tag: x})
+			}
+			f.Close()
+		}
+		res := e.run("asan", jobs, "c17w", 3000)
+		n := 0
+		for _, rs := range res {
+			if rs == nil {
+				continue
+			}
+			x := rs.Job.Tag.(exp)
+			desc := map[string]interface{}{"kind": x.kind, "phase": x.phase, "idx": x.idx, "payload_len": x.plen, "encoded_len": x.elen}
+			if !e.commonMonitors("wuffs-decoder", "asan", rs, desc) {
+				continue
+			}
+			o := rs.First()
+			n++
+			bad := ""
+			switch {
+			case wd.Str(o, "status") != "" || wd.Str(o, "outcome") != "final":
+				bad = fmt.Sprintf("status %q outcome %s", wd.Str(o, "status"), wd.Str(o, "outcome"))
+			case wd.Num(o, "out_len") != x.plen || wd.Str(o, "out_hash") != x.hash:
+				bad = fmt.Sprintf("decoded %d bytes (hash %s), payload has %d bytes (hash %s)", wd.Num(o, "out_len"), wd.Str(o, "out_hash"), x.plen, x.hash)
+			case wd.Num(o, "consumed") != x.elen:
+				bad = fmt.Sprintf("consumed %d of %d encoded bytes", wd.Num(o, "consumed"), x.elen)
+			}
+			if bad != "" {
+				desc["job"], desc["result"] = rs.Job.Text, o
+				e.viol("wuffs-decoder-disagrees:"+x.kind, fmt.Sprintf("generated Wuffs std/%s decoder on a litonlylzma encoding (%s case %d, %d payload bytes): %s", x.kind, x.phase, x.idx, x.plen, bad), desc)
+			}
+			e.class(fmt.Sprintf("wuffs-leg|%s|%s|split=%v", x.kind, x.phase, strings.Contains(rs.Job.Text, "splits=")))
+		}
+		e.count("wuffs_decoder_leg_decodes", int64(n))
+		if n == 0 {
+			r.Inconclusive("the Wuffs decoder leg decoded nothing")
+		}
+		return sp
+	}}
 }
